@@ -7,7 +7,7 @@ import os
 VERIF = os.path.dirname(os.path.dirname(os.path.abspath(__file__)))
 
 P = {
- 'C01': ('static decision of R1.1-R1.11: untagged-response order automaton over the comparison generator CFG, EXPUNGE/EXISTS argument def-use, hide-expunged dominance in the three sequence-number handlers, fork-once and field ownership, index coherence, seq=index+1, view-before-merge, every forked diff of the IDLE loop is written, per-command marks reset when a handler fails, the count SELECT announces is the synchronized view\'s',
+ 'C01': ('static decision of R1.1-R1.12: untagged-response order automaton over the comparison generator CFG, EXPUNGE/EXISTS argument def-use, hide-expunged dominance in the three sequence-number handlers, fork-once and field ownership, index coherence, seq=index+1, view-before-merge, every forked diff of the IDLE loop is written, per-command marks reset when a handler fails, the count SELECT announces is the synchronized view\'s, FETCH responses never merged across an EXPUNGE',
          'CFG order automaton + dominance + def-use + field-ownership enumeration (ast)'),
  'C02': ('static decision of R2.1-R2.10: mutate=>log=>notify post-dominance at every dict mailbox mutation, expunge record never overwritten, no suspension inside the consume window, every session method returns a merged selection, merge applies both halves, maildir full diff, flag-key mirror coherence, diff machinery reads snapshots not live objects, change-log buckets / UID records dropped only when empty / absent, deferred removals dropped only by applying them',
          'post-dominance pairing + suspension-window path query + return-value provenance (ast CFG)'),
